@@ -80,6 +80,8 @@ type Wrap struct {
 	// AfterGet, if set, is called after every point read returned (the caller is a goroutine of the system under test:
 	// blocking here is a descheduled reader that has its value in hand).
 	AfterGet func(key, val []byte, err error)
+	// GetFault, if set, is asked before every point read; a non-nil error is returned instead of reading
+	GetFault func(key []byte) error
 	// OracleFault, if set, is asked before every GetTimestampOracle; a non-nil error is returned instead (a PD outage)
 	OracleFault func() error
 
@@ -119,6 +121,11 @@ func (w *Wrap) GetTimestampOracle(ctx context.Context) (uint64, error) {
 
 // Get implements storage.KvStorage
 func (w *Wrap) Get(ctx context.Context, key []byte) ([]byte, error) {
+	if f := w.GetFault; f != nil {
+		if ferr := f(key); ferr != nil {
+			return nil, ferr
+		}
+	}
 	val, err := w.KvStorage.Get(ctx, key)
 	if f := w.AfterGet; f != nil {
 		f(key, val, err)
